@@ -14,7 +14,7 @@ META = {
 }
 
 ALLOWED_AXIOMS = ()
-MODEL_VOS = ["Base/Conv.vo", "IO/Dddmp.vo", "IO/DddmpFile.vo"]
+MODEL_VOS = ["Base/Conv.vo", "IO/Dddmp.vo", "IO/DddmpFile.vo", "IO/DddmpTdd.vo"]
 
 
 def build(ctx):
